@@ -1,7 +1,7 @@
 (* C18 -- property theorems only. *)
 From Coq Require Import QArith ZArith List Bool.
 Import ListNotations.
-From PD Require Import Model.Threshold Model.Pipeline Model.Overlap Gen.Gen_analysis Proofs.C18.
+From PD Require Import Model.Threshold Model.Pipeline Model.Overlap Gen.Gen_analysis Proofs.C18 Proofs.Otsu.
 Local Open Scope Q_scope.
 
 (* locate_mask: ANY function of the binary image (Model/Locate.v is one instance) *)
@@ -33,12 +33,32 @@ Theorem C18_otsu_is_argmax_bin_centre : forall x l, Qeq_bool (lmin x l) (lmax x 
 Proof. exact tau_otsu_argmax. Qed.
 Print Assumptions C18_otsu_is_argmax_bin_centre.
 
+(* every rule, including Otsu; a numeric threshold is mapped the same way (map_rule) *)
 Theorem C18_affine_invariant : forall (cand : Type) (locate_mask : list bool -> list cand) radius a b r mn x l,
-  0 < a -> not_otsu r ->
+  0 < a ->
   locate cand locate_mask radius (map_rule a b r) mn (affine a b x) (map (affine a b) l) =
   locate cand locate_mask radius r mn x l.
-Proof. exact affine_invariant. Qed.
+Proof. exact affine_invariant_all. Qed.
 Print Assumptions C18_affine_invariant.
+
+Theorem C18_mask_affine_invariant : forall a b r x l, 0 < a ->
+  mask_of (map_rule a b r) (affine a b x) (map (affine a b) l) = mask_of r x l.
+Proof. exact mask_affine_all. Qed.
+Print Assumptions C18_mask_affine_invariant.
+
+Theorem C18_otsu_equivariant : forall a b x l, 0 < a -> Qeq_bool (lmin x l) (lmax x l) = false ->
+  otsu (affine a b x) (map (affine a b) l) == affine a b (otsu x l).
+Proof. exact otsu_affine. Qed.
+Print Assumptions C18_otsu_equivariant.
+
+Theorem C18_mask_eval_eq : forall r x l, mask_eval r x l = mask_of r x l.
+Proof. exact mask_eval_eq. Qed.
+Print Assumptions C18_mask_eval_eq.
+
+(* the evaluation-friendly variance used by the correspondence equals the specification *)
+Theorem C18_variance_eval_eq : forall cnt c k, variance12r cnt c k == variance12 cnt c k.
+Proof. exact variance12r_eq. Qed.
+Print Assumptions C18_variance_eval_eq.
 
 Theorem C18_filter_exact : forall (cand : Type) radius mn cs (c : cand),
   In c (size_filter cand radius mn cs) <-> In c cs /\ mn < radius c.
